@@ -28,7 +28,22 @@ import multiprocessing as _mp, os as _os
 FAIL_COUNT = _mp.Value('i', 0)                # refuted / undecided obligations so far in this run (shared by forked workers)
 FAIL_LIMIT = int(_os.environ.get('PYVC_FAIL_LIMIT', '24'))
 
-def discharge(pc, goal, extra=(), timeout_ms=20000, want_model=True, use_cvc5=True):
+def discharge(pc, goal, extra=(), timeout_ms=20000, want_model=True, use_cvc5=True, nra=False):
+    if nra:
+        # nonlinear real obligation: try the realified generalisation first (quick when it works), fall back to the original
+        pc2, g2, ex2 = realify(pc, goal, extra)
+        t0 = time.time()
+        try:
+            sn = z3.Then('simplify', 'propagate-values', 'purify-arith', 'qfnra-nlsat').solver(); sn.set('timeout', min(timeout_ms, 20000))
+            for c in pc2: sn.add(c)
+            for c in ex2: sn.add(c)
+            sn.add(z3.Not(g2))
+            if sn.check() == z3.unsat: return dict(result='unsat', backend='z3-nlsat(realified)', secs=time.time() - t0, model=None)
+        except z3.Z3Exception:
+            pass
+        r = _discharge(pc2, g2, ex2, min(timeout_ms, 10000), False, False)
+        if r['result'] == 'unsat':
+            r['backend'] = r['backend'] + '(realified)'; return r
     r = _discharge(pc, goal, extra, timeout_ms, want_model, use_cvc5)
     if r['result'] != 'unsat':
         with FAIL_COUNT.get_lock(): FAIL_COUNT.value += 1
@@ -63,6 +78,39 @@ def _discharge(pc, goal, extra=(), timeout_ms=20000, want_model=True, use_cvc5=T
         return dict(result='unknown', backend='z3+cvc5', secs=time.time() - t0, model=None, note='cvc5 says %s' % c)
     res = str(r)
     return dict(result=res, backend=backend, secs=time.time() - t0, model=(s.model() if r == z3.sat and want_model else None))
+
+def realify(pc, goal, extra=()):
+    """sound generalisation for nonlinear real obligations: ToReal(int constant) becomes a fresh real (keeping its constant bounds),
+    applications of uninterpreted real-valued functions become fresh reals (congruence is dropped).  Valid generalised => valid."""
+    allf = list(pc) + list(extra) + [goal]
+    sub = {}; bounds = []
+    def visit(t, seen):
+        if t.get_id() in seen: return
+        seen.add(t.get_id())
+        if z3.is_app(t):
+            k = t.decl().kind()
+            if k == z3.Z3_OP_TO_REAL and z3.is_const(t.arg(0)) and t.arg(0).decl().kind() == z3.Z3_OP_UNINTERPRETED:
+                if t.get_id() not in sub: sub[t.get_id()] = (t, z3.Real('r!' + str(t.arg(0))))
+                return
+            if k == z3.Z3_OP_UNINTERPRETED and t.num_args() > 0 and z3.is_real(t):
+                if t.get_id() not in sub: sub[t.get_id()] = (t, z3.Real('u!%d' % t.get_id()))
+                return        # do not descend: the whole application is abstracted
+            for c in t.children(): visit(c, seen)
+    seen = set()
+    for f in allf: visit(f, seen)
+    if not sub: return list(pc), goal, list(extra)
+    pairs = list(sub.values())
+    # integer bounds of the realified constants
+    ints = {p[0].arg(0).get_id(): p[1] for p in pairs if p[0].decl().kind() == z3.Z3_OP_TO_REAL}
+    for c in pc:
+        if z3.is_app(c) and c.decl().kind() in (z3.Z3_OP_LE, z3.Z3_OP_GE, z3.Z3_OP_LT, z3.Z3_OP_GT) and c.num_args() == 2:
+            a, b = c.arg(0), c.arg(1)
+            if z3.is_const(a) and a.get_id() in ints and z3.is_int_value(b): bounds.append(z3.substitute(c, (a, z3.ToInt(ints[a.get_id()]))) if False else _cmp_real(c.decl().kind(), ints[a.get_id()], z3.RealVal(b.as_long())))
+            if z3.is_const(b) and b.get_id() in ints and z3.is_int_value(a): bounds.append(_cmp_real(c.decl().kind(), z3.RealVal(a.as_long()), ints[b.get_id()]))
+    S = lambda f: z3.substitute(f, *pairs)
+    return [S(c) for c in pc] + bounds, S(goal), [S(e) for e in extra]
+def _cmp_real(k, a, b):
+    return {z3.Z3_OP_LE: a <= b, z3.Z3_OP_GE: a >= b, z3.Z3_OP_LT: a < b, z3.Z3_OP_GT: a > b}[k]
 
 def satisfiable(pc, extra=(), timeout_ms=5000):
     s = z3.Solver(); s.set('timeout', timeout_ms)
